@@ -49,6 +49,13 @@ def r1(ctx):
         raise AnchorMissing('Interleaved arm of next_idx')
     lps = [l for l in cfg.loops(b) if l.header in arm]
     if len(lps) != 1:
+        just = cyclic_find_sites(ctx, b, arm)
+        if just:
+            ctx.ok(b, 'interleaved selection is the cyclic search (1..=n).map(|o| (idx + o) % n).find(|i| !finished[i]): starts at idx+1, '
+                   'visits every source once (the current one last), so it finds a source whenever one is unfinished', just[0].span)
+            pre = any(pol is False and match(t, Call(G + '::all_finished', ('arg', 1, ANY))) for t, pol, g in atoms_at(b, just[0].bb))
+            ctx.require(pre, b, 'scan-precondition', 'the search is dominated by assert!(!self.all_finished())', None, just[0].span)
+            return
         raise AnchorMissing('expected one scan loop in the Interleaved arm, found %d' % len(lps))
     loop = lps[0]
     hdr_span = b.blocks[loop.header].term.span
@@ -264,6 +271,39 @@ def r6(ctx):
     ctx.require(good, n, 'start-index', 'iteration starts at source 0', None)
 
 
+def cyclic_find_sites(ctx, b, arm=None):
+    """unwrap/expect sites of next_idx whose operand is the complete cyclic search
+    `(1..=n).map(|o| (self.idx + o) % n).find(|i| !self.finished[*i])` with n = self.finished.len(): all n residues are visited,
+    starting behind the current source, so under !all_finished() the search cannot fail"""
+    from analysis.seq import seq_of_iter, apply_fn, ITEM
+    from analysis import poly
+    from rules.common import range_bounds
+    out = []
+    LEN = Call('len', SELF_FIN)
+    for t in b.calls(r'Option::(expect|unwrap)$'):
+        if arm is not None and t.bb not in arm:
+            continue
+        x = peel(sym(b, t.args[0]))
+        if not (x[0] == 'call' and x[1].endswith('::find') and len(x[2]) == 2):
+            continue
+        segs = seq_of_iter(ctx.facts, b, x[2][0])
+        if segs is None or len(segs) != 1 or segs[0].kind != 'each' or segs[0].conds:
+            continue
+        rb = range_bounds(segs[0].src)
+        if rb is None or rb[0] != 1 or isinstance(rb[1], int):
+            continue
+        lens = [y for y in walk(rb[1]) if isinstance(y, tuple) and y and match(core(y), LEN)]
+        if not lens or poly.poly(rb[1]) != poly._add(poly.poly(lens[0]), {(): 1}, 1):
+            continue
+        e = core(segs[0].elem)
+        okm = e[0] == 'bin' and e[1] == 'Rem' and match(e[3], LEN) and (match(e[2], ('bin', 'Add', SELF_IDX, ITEM)) or match(e[2], ('bin', 'Add', ITEM, SELF_IDX)))
+        pred = core(apply_fn(ctx.facts, x[2][1], (segs[0].elem,)))
+        okp = pred[0] == 'un' and pred[1] == 'Not' and match(core(pred[2]), ('index', SELF_FIN, Pred(lambda u: nosite(core(u)) == nosite(e))))
+        if okm and okp:
+            out.append(t)
+    return out
+
+
 C07_PANIC_INVENTORY = {
     # (function, kind) -> (allowed, reason)
     (G + '::next_idx', 'assert'): (1, 'assert!(!self.all_finished()): next() calls next_idx() only behind the all_finished() early return (R-C07-2)'),
@@ -283,9 +323,10 @@ def r7(ctx):
         b0 = ctx.body(name)
         for b in [b0] + closures_in(ctx, b0):
             n += 1
+            justified = cyclic_find_sites(ctx, b) if b is b0 and name.endswith('::next_idx') else []
             for t, d in panic_sites(b):
                 k = _site_kind(t, d)
-                if k is not None:
+                if k is not None and t not in justified:
                     found.setdefault((norm_path(b.path), k), []).append((b, t))
     for key in sorted(set(found) | set(C07_PANIC_INVENTORY)):
         sites = found.get(key, [])
